@@ -248,7 +248,75 @@ def stepS (cfg : Cfg) (s : State) (op : Op) : State :=
 def init : State := {}
 def run (cfg : Cfg) (ops : List Op) : State := ops.foldl (stepS cfg) init
 
+/-! ## errors with a `source()` chain
+
+The wrapped service's error may have causes (`std::error::Error::source`). `should_reconnect` hands the predicate
+the error the service RETURNED, and nothing else: the input language with chains (`COp`) is mapped to the one above
+by keeping the head of every error (`COut.head`); the causes reach no transition. -/
+
+/-- scripted outcome with a cause chain: `err kind causes` is an error of kind `kind` whose `source()` is an error
+of kind `causes[0]`, whose `source()` is an error of kind `causes[1]`, … -/
+inductive COut
+  | ok
+  | err (kind : Nat) (causes : List Nat)
+  | panic
+  | never
+deriving DecidableEq, Repr, Inhabited
+
+structure CStep where
+  lat : Nat
+  out : COut
+deriving DecidableEq, Repr, Inhabited
+
+/-- the error itself, without its causes -/
+def COut.head : COut → Out
+  | .ok => .ok
+  | .err kd _ => .err kd
+  | .panic => .panic
+  | .never => .never
+
+def CStep.head (s : CStep) : Step := { lat := s.lat, out := s.out.head }
+
+inductive COp
+  | arrive (c : Nat) (plan : List CStep)
+  | poll (c : Nat) (obs : List Nat)
+  | drop (c : Nat)
+  | adv (ms : Nat)
+  | probe
+
+def COp.head : COp → Op
+  | .arrive c plan => .arrive c (plan.map CStep.head)
+  | .poll c obs => .poll c obs
+  | .drop c => .drop c
+  | .adv ms => .adv ms
+  | .probe => .probe
+
+def runC (cfg : Cfg) (ops : List COp) : State := run cfg (ops.map COp.head)
+
+/-- what the predicate-based classification of an error with causes IS: the predicate applied to the error -/
+def classify (cfg : Cfg) (kind : Nat) (_causes : List Nat) : Bool := cfg.reconn kind
+
 /-! ## line protocol -/
+
+/-- `err2>1>3` -/
+def parseCOut (s : String) : COut :=
+  if s.startsWith "err" then
+    match ((s.drop 3).toString.splitOn ">").map fun x => x.toNat?.getD 0 with
+    | kd :: causes => .err kd causes
+    | [] => .err 0 []
+  else match parseOut s with
+    | .ok => .ok
+    | .err kd => .err kd []
+    | .panic => .panic
+    | .never => .never
+
+/-- `inner=5:ok,0:err2>1` -/
+def parseCPlan (s : String) : List CStep :=
+  if s.isEmpty then [] else
+  (s.splitOn ",").map fun part =>
+    match part.splitOn ":" with
+    | [l, o] => { lat := l.toNat?.getD 0, out := parseCOut o }
+    | _ => { lat := 0, out := parseCOut part }
 
 def Conn.render : Conn → String
   | .connected => "connected"
@@ -275,9 +343,9 @@ def parseObs (ws : List String) : List Nat :=
   ws.filterMap fun w =>
     if w.startsWith "@delay=" then (w.drop 7).toString.toNat? else none
 
-def parseOp (ws : List String) : Option Op :=
+def parseOp (ws : List String) : Option COp :=
   match ws with
-  | "arrive" :: c :: rest => some (.arrive (c.toNat?.getD 0) (planOf (parseKv rest)))
+  | "arrive" :: c :: rest => some (.arrive (c.toNat?.getD 0) (parseCPlan ((parseKv rest).str "inner" "0:ok")))
   | "poll" :: c :: rest => some (.poll (c.toNat?.getD 0) (parseObs rest))
   | "drop" :: c :: _ => some (.drop (c.toNat?.getD 0))
   | "adv" :: ms :: _ => some (.adv (ms.toNat?.getD 0))
@@ -318,7 +386,7 @@ def machine : Machine where
   step := fun (cfg, s) ws =>
     match parseOp ws with
     | some op =>
-        let s' := stepS cfg s op
+        let s' := stepS cfg s op.head
         ((cfg, s'), (s'.sh.log.drop s.sh.log.length).map REv.toEv)
     | none => ((cfg, s), [])
   now := fun (_, s) => s.sh.now
